@@ -250,7 +250,9 @@ def _fit_case(args):
     res = dict(args=args, status='ok', converged=converged, n_iter=len(gam.logs_['diffs']))
     worst = 0.0
     span = 0.0
-    for x2v in ([0.0] if not tensor else [0.0, 0.37, 1.0]):
+    # the other marginal of a tensor term is evaluated inside its own fitted domain (its linear continuation has
+    # negative basis values, for which no shape is promised)
+    for x2v in ([0.0] if not tensor else [float(x2.min()), float(np.median(x2)), float(x2.max())]):
         XX = np.c_[grid, np.full_like(grid, x2v)]
         pd = gam.partial_dependence(0, XX)
         span = max(span, float(pd.max() - pd.min()))
